@@ -69,7 +69,7 @@ class JobTimeout(BaseException):
 
 
 def JOB_TIMEOUT():
-    return 90 if tier() == "quick" else 900
+    return 90 if tier() == "quick" else 300
 
 
 def _alarm(signum, frame):
@@ -337,6 +337,17 @@ def plan(pid, tr, sd):
             for k, h in enumerate(hs):
                 for pl in ([pls[0], pls[4]] if tr == "quick" else [pls[0], pls[4], pls[5], pls[1]]):
                     jobs.append((pid, "c08", label, t, gens[0], dict(pl, history=h)))
+    if tr == "thorough":
+        # thorough: running out of space in the first chunk is explored (no roomy assumption) for types without
+        # references; scenarios with many allocations keep the assumption except in the growth placements
+        out = []
+        for j in jobs:
+            cfg = j[5]
+            heavy = tg.has_ref(j[3]) or pid in ("C09", "C10", "C08")
+            if heavy and cfg.get("N", 0) >= 1 and cfg.get("placement") != "grown":
+                j = j[:5] + (dict(cfg, roomy=1 << 14),)
+            out.append(j)
+        jobs = out
     if tr == "quick":
         # bound of the quick tier: for reference-bearing types and multi-object scenarios (many
         # allocations) the first free chunk is assumed large enough for the whole scenario; running
